@@ -59,6 +59,7 @@ fam({'C14': ('main', 'all')},
 fam({'C17': ('main', 'all')},
     driver='worker', tv='WorkerTV', mc_quick=[('WorkerL2', 'WorkerL2')], mc_thorough=[('WorkerL2', 'WorkerL2_big')],
     n=(80, 300, 2000, 6000))
+F['C17'] = dict(F['C17'], l2gate=dict(driver='worker', tv='WorkerL2TV', n=(100, 1500)))
 fam({'C09': ('keys', 'all'), 'C10': ('main', 'all')},
     driver='exclusive', tv='ExclusiveTV',
     mc_quick=[('ExclusiveL2', 'ExclusiveL2'), ('ExclusiveL2', 'ExclusiveL2_neg'), ('ExclusiveL2', 'ExclusiveL2_witness')],
@@ -184,6 +185,52 @@ def generated(ctx, f):
     ctx.samples += [dict(generated_program=json.loads(progs[len(progs) // 2].replace('\\"', '"')))]
 
 
+def l2gate(ctx, f):
+    """gate-level binding of an L2 specification: every scheduling decision of controlled executions is a step line; the
+    steps that carry critical sections are mapped to L2 actions which must be enabled; L2 invariants are checked in every
+    state the real execution drives the model into. Invariant violated -> violation; protocol no longer followed -> the
+    model has drifted from the code and the check vouches for nothing (exit 2), unless violations were found anyway"""
+    g = f['l2gate']
+    n = g['n'][0] if ctx.quick else g['n'][1]
+    try:
+        out, st = run_harness(ctx, g['driver'], 'l2gate', mode='c', profile=g.get('profile', 'main'), seed=ctx.seed + 500, n=n, gates=1)
+    except Crash as c:
+        first = str(c).splitlines()[0][:300]
+        report(ctx, f'crash:l2gate:{first[:80]}', f'the process running the real code was killed by a panic raised outside the harness (l2gate leg): {first}',
+               {'panic.txt': str(c), 'exec.json': dict(driver=g['driver'], profile=g.get('profile', 'main'), mode='c', seed=ctx.seed + 500, n=n, crash=True)})
+        return
+    trace = f'{out}/trace.ndjson'
+    res = tv_once(ctx, g['tv'], g['tv'], trace, 'all', 'tv_l2gate', timeout=900)
+    txt = open(f'{ctx.work}/tv_l2gate/tlc.out').read()
+    steps = sum(1 for ln in open(trace) if '"ev":"step"' in ln)
+    ctx.conf.append(dict(mode='controlled, gate-level (L2 binding)', spec=g['tv'], executions=st['executions'], step_lines=steps, accepted=res['accepted'],
+                         tv_states=res['distinct']))
+    ctx.tv_states = getattr(ctx, 'tv_states', 0) + res['distinct']
+    ctx.evaluations += st['executions']
+    if res['accepted']:
+        ctx.traces_ok += st['executions']
+        return
+    lines = open(trace).read().splitlines()
+    b = min(res['mark'], len(lines) - 1)
+    s0 = b
+    while s0 > 0 and '"ev":"reset"' not in lines[s0]:
+        s0 -= 1
+    e0 = b + 1
+    while e0 < len(lines) and '"ev":"reset"' not in lines[e0]:
+        e0 += 1
+    inv = re.search(r'Invariant (\w+) is violated', txt)
+    files = {'trace.ndjson': '\n'.join(lines[s0:e0]) + '\n', 'rejected_event.json': lines[b] if b < len(lines) else '',
+             'exec.json': dict(next((x for x in st.get('exec_index', []) if x['exec'] == json.loads(lines[s0]).get('exec')), {}), mode='c', driver=g['driver'], spec=g['tv'], gates=1)}
+    if inv:
+        report(ctx, f'l2gate:invariant:{inv.group(1)}', f'a real execution drives {g["tv"]} into a state that violates {inv.group(1)} (line {b + 1}: {lines[b][:200]})', files)
+        return
+    if ctx.violations:
+        ctx.notes.append(f'l2gate: the code no longer follows {g["tv"]} (first unexplained line {b + 1}: {lines[b][:160]})')
+        return
+    raise Infra(f'MODEL-DRIFT: the code no longer follows the protocol of {g["tv"]} (first unexplained line {b + 1}: {lines[b][:200]}); '
+                f'the model-checking results of this check say nothing about this code any more')
+
+
 def run(ctx):
     f = F[ctx.pid]
     if 'custom' in f:
@@ -213,6 +260,8 @@ def run(ctx):
         generated(ctx, f)
     if 'extra' in f:
         f['extra'](ctx, f)
+    if 'l2gate' in f:
+        l2gate(ctx, f)
 
 
 def replay(ctx, path):
